@@ -510,6 +510,41 @@ def pattern_programs():
         return build
     for slope in (-1.0, -0.5, 3.0):
         add("leaky_relu_with_unusual_slope_in_a_diamond", [Leaf("a", (2,)), Leaf("b", (2,))], leaky_diamond(slope), slope=slope)
+    # Python-level aliasing of the CALLER's objects: the list handed to a join is reused / edited afterwards (a sliding window, a work list cleared for the next step); the
+    # recorded graph is the one the forward built
+    def reused_list(how):
+        def build(T, K):
+            parts = [T["a"] * T["a"], T["b"], F.exp(T["a"])]
+            j = F.concat(parts, 0) if how != "stack" else F.stack(parts, 0)
+            if how == "cleared":
+                parts.clear()
+            elif how == "window":
+                parts[0] = T["b"] * 3.0
+                parts.append(T["a"])
+            else:
+                parts.reverse()
+            k = F.concat([j, j * T["b"].sum()], 0) if how != "stack" else j * T["b"].sum()
+            return k
+        return build
+    for how in ("cleared", "window", "reversed", "stack"):
+        add("operand_list_edited_after_the_join", [Leaf("a", (2,)), Leaf("b", (2,))], reused_list(how), how=how)
+    # the accumulator idiom: an untracked running total updated with += by tracked terms, then used further (augmented assignment must record the same graph as t = t + term)
+    def accumulator(op):
+        def build(T, K):
+            acc = T["c"]                    # an operand that does not require grad: the running total starts outside any graph
+            for k in range(3):
+                term = T["a"] * float(k + 1) if k != 1 else T["a"] * T["b"]
+                if op == "+=":
+                    acc += term
+                elif op == "-=":
+                    acc -= term
+                else:
+                    acc *= (term + 1.0)
+                    acc += T["b"]
+            return acc * T["b"] + acc
+        return build
+    for op in ("+=", "-=", "*="):
+        add("untracked_accumulator_updated_in_place_by_tracked_terms", [Leaf("a", (2,)), Leaf("b", (2,)), Leaf("c", (2,), "any", False)], accumulator(op), operator=op)
     # order independence: the same expression with independent branches built in every order
     def branches(order):
         def build(T, K):
